@@ -381,6 +381,13 @@ def _pow(ctx, case):
         call = lambda x: x ** UTPM(yd.copy())
         exact = None
     x = UTPM(xd.copy())
+    if not pk.startswith('rpow') and rng.random() < 0.3:
+        # the augmented form x **= e: whatever object it returns, its value is x ** e
+        mech = mech + ':augmented'
+        if pk.startswith('pow_utpm'):
+            call = lambda x_: operator.ipow(x_, UTPM(yd.copy()))
+        else:
+            call = lambda x_: operator.ipow(x_, e)
     try:
         r = call(x)
     except Exception as ex:
